@@ -16,6 +16,10 @@
 import Vita.C19.LemmasStr
 import Vita.C19.LemmasStrip
 import Vita.C19.LemmasNum
+import Vita.C19.LemmasGenome
+import Vita.C19.LemmasStream
+import Vita.C19.LemmasExact
+import Vita.C19.GenExport
 namespace Vita.C19
 
 set_option maxRecDepth 100000 in
@@ -78,14 +82,18 @@ theorem scan_render (fns : List FnSym) (tms : List TmSym) (f : Fmt) (hr : allReg
     lexS f (simT fns tms f t) = toksT fns tms f t :=
   (lex_tree fns tms f hr hg t h.1 h.2.2).1
 
-/-- `export_denotes`: the text printed for a program scans to the token list of a
-    precedence-consistent tree `A` which is the program's expression tree, or that tree without
-    its outer pair of parentheses. -/
-theorem export_denotes (fns : List FnSym) (tms : List TmSym) (f : Fmt)
+/-- `strip_only_matching` (the outer-parentheses rule of language(): `length > 2 && front == '('
+    && back == ')'`): the text printed for a program scans to the token list of a
+    precedence-consistent tree `A`; either nothing was stripped and `A` is the program's expression
+    tree, or the program's expression tree is `( A )` – the two characters removed are the two
+    ends of ONE parenthesised expression, never the `(` of a first and the `)` of a last operand
+    (`(a)+(b)` is not turned into `a)+(b`). -/
+theorem strip_only_matching (fns : List FnSym) (tms : List TmSym) (f : Fmt)
     (hs : allSafe fns = true) (hr : allRegular fns = true) (hg : allNoGlue fns tms = true)
     (t : Tree) (h : Admissible fns tms f t) :
     ∃ A : Ast, lexS f (language fns tms f t) = flat A ∧ ok f hl A = true ∧
-      (A = astT fns tms f t ∨ astT fns tms f t = .paren A) := by
+      ((A = astT fns tms f t ∧ language fns tms f t = langT fns tms f t) ∨
+       astT fns tms f t = .paren A) := by
   have ⟨hflat, hok, _⟩ := render_atom fns tms f hs t h
   have hseq := seq_replace_ok fns tms f hr t h
   have ⟨hlex, hrend⟩ := lex_tree fns tms f hr hg t h.1 h.2.2
@@ -119,7 +127,18 @@ theorem export_denotes (fns : List FnSym) (tms : List TmSym) (f : Fmt)
     | _ => rw [hA] at hpar; simp [isParen] at hpar
   · have hstrip : stripOuter s = s := by simp [stripOuter, hc]
     rw [hstrip]
-    exact ⟨astT fns tms f t, by rw [hlex, hflat], hok, Or.inl rfl⟩
+    exact ⟨astT fns tms f t, by rw [hlex, hflat], hok, Or.inl ⟨rfl, rfl⟩⟩
+
+/-- `export_denotes`: the text printed for a program scans to the token list of a
+    precedence-consistent tree `A` which is the program's expression tree, or that tree without
+    its outer pair of parentheses. -/
+theorem export_denotes (fns : List FnSym) (tms : List TmSym) (f : Fmt)
+    (hs : allSafe fns = true) (hr : allRegular fns = true) (hg : allNoGlue fns tms = true)
+    (t : Tree) (h : Admissible fns tms f t) :
+    ∃ A : Ast, lexS f (language fns tms f t) = flat A ∧ ok f hl A = true ∧
+      (A = astT fns tms f t ∨ astT fns tms f t = .paren A) := by
+  obtain ⟨A, h1, h2, h3⟩ := strip_only_matching fns tms f hs hr hg t h
+  exact ⟨A, h1, h2, h3.elim (fun x => Or.inl x.1) Or.inr⟩
 
 /-- the shipped table meets the obligations: for every program over the shipped primitives and
     each of the four formats, the exported text denotes the program's expression. -/
@@ -158,6 +177,151 @@ theorem numeric_terminal_admissible (fns : List FnSym) (tms : List TmSym) (f : F
       simp [partStr]
     rw [this]; exact fmtInt0_good f _ hfl _
 
+/-! ### the genome level: the exported text is a function of the unfolded program only -/
+
+/-- `export_of_unfolded`: what `out::X_language << individual` prints – the recursive lambda
+    reading its arguments through `mep[{args[i], arg_category(i)}]`, i.e. by LOCUS (row and
+    category) – is the text of the tree unfolded from the best locus.  For every genome, every
+    best locus, every format. -/
+theorem export_of_unfolded (fns : List FnSym) (tms : List TmSym) (f : Fmt) (g : Genome) (n : Nat)
+    (best : Locus) :
+    exportG fns tms f g n best = language fns tms f (unfoldG fns g n best) := by
+  simp only [exportG, language, langG_eq_langT]
+
+/-- `export_layout_independent`: equal trees ⇒ equal text.  Two individuals (different numbers
+    of rows and categories, genes placed in different rows, several active genes in one row or one
+    per row, a sub-expression shared as a DAG node or repeated) whose unfolded programs are equal
+    are printed identically. -/
+theorem export_layout_independent (fns : List FnSym) (tms : List TmSym) (f : Fmt) (g1 g2 : Genome)
+    (n1 n2 : Nat) (b1 b2 : Locus) (h : unfoldG fns g1 n1 b1 = unfoldG fns g2 n2 b2) :
+    exportG fns tms f g1 n1 b1 = exportG fns tms f g2 n2 b2 := by
+  simp only [export_of_unfolded, h]
+
+/-- `export_ignores_inactive`: the text depends on the ACTIVE genes only: two genomes that hold
+    the same gene at every locus reachable from the best locus are printed identically, whatever
+    the other loci hold (introns, the other categories of an active row, ...). -/
+theorem export_ignores_inactive (fns : List FnSym) (tms : List TmSym) (f : Fmt) (g1 g2 : Genome)
+    (n : Nat) (best : Locus) (h : ∀ m, Active fns g1 best m → g1 m = g2 m) :
+    exportG fns tms f g1 n best = exportG fns tms f g2 n best :=
+  export_layout_independent fns tms f g1 g2 n n best best (unfoldG_congr fns g1 g2 n best h)
+
+/-- `unfold_fuel_irrelevant`: on a well-formed genome (`i_mep::is_valid`: the arguments of a gene
+    in row i are in rows i+1 .. n-1) the recursion of language() needs no more than `n` levels:
+    any larger bound unfolds the same program and prints the same text. -/
+theorem unfold_fuel_irrelevant (fns : List FnSym) (tms : List TmSym) (f : Fmt) (g : Genome) (n : Nat)
+    (hw : WfG fns g n) (best : Locus) (hb : best.row < n) (fuel : Nat) (hf : n ≤ fuel) :
+    unfoldG fns g fuel best = unfoldG fns g n best ∧
+    exportG fns tms f g fuel best = exportG fns tms f g n best := by
+  have h := unfoldG_stable fns g n hw fuel n best hb (by omega) (by omega)
+  exact ⟨h, export_layout_independent fns tms f g g fuel n best best h⟩
+
+/-- `export_genome_denotes`: `export_denotes` at the genome level: the text printed for an
+    individual scans to the token list of a precedence-consistent tree which is the expression
+    tree of the unfolded program, or that tree without its one outer pair of parentheses. -/
+theorem export_genome_denotes (fns : List FnSym) (tms : List TmSym) (f : Fmt)
+    (hs : allSafe fns = true) (hr : allRegular fns = true) (hg : allNoGlue fns tms = true)
+    (g : Genome) (n : Nat) (best : Locus) (h : Admissible fns tms f (unfoldG fns g n best)) :
+    ∃ A : Ast, lexS f (exportG fns tms f g n best) = flat A ∧ ok f hl A = true ∧
+      (A = astT fns tms f (unfoldG fns g n best) ∨ astT fns tms f (unfoldG fns g n best) = .paren A) := by
+  rw [export_of_unfolded]
+  exact export_denotes fns tms f hs hr hg _ h
+
+/-- `team_export_lines`: a team is printed as its members' texts, each followed by a newline;
+    when no member's text contains a newline the lines of the team's text are exactly the
+    members' texts (so each line denotes its member's expression by `export_genome_denotes`). -/
+theorem team_export_lines (ms : List (List Ch)) (h : ∀ m ∈ ms, 10 ∉ m) :
+    splitLines (teamG ms) = ms :=
+  splitLines_teamG ms h
+
+/-! ### numeric constants: what `std::to_string(double)` prints, read back -/
+
+/-- `to_string_double_reads_back`: for EVERY finite double the text `std::to_string` prints is
+    `[-]digits.dddddd` and denotes (sign bit, `scaled6 bits` millionths) – the value rounded
+    half-even to 6 decimals. -/
+theorem to_string_double_reads_back (bits : Nat) (hfin : bits / 2 ^ 52 % 2048 ≠ 2047) :
+    readSigned6 (fmtF64 bits) = some (decide (bits / 2 ^ 63 % 2 = 1), scaled6 bits) :=
+  fmtF64_reads_back bits hfin
+
+/-- `constants_print_exactly`: the class "constants print exactly" (`exact6`: finite, and
+    mantissa·10⁶ divisible by 2^(-exponent) when the exponent is negative) is exactly right: for
+    such a constant the printed text denotes the constant itself – the millionths read back are
+    mantissa·2^exponent·10⁶, nothing was rounded away. -/
+theorem constants_print_exactly (bits : Nat) (h : exact6 bits = true) :
+    readSigned6 (fmtF64 bits) = some (decide (bits / 2 ^ 63 % 2 = 1), scaled6 bits) ∧
+    (0 ≤ f64Exp bits → scaled6 bits = f64Mant bits * 2 ^ (f64Exp bits).toNat * 1000000) ∧
+    (f64Exp bits < 0 → scaled6 bits * 2 ^ (-(f64Exp bits)).toNat = f64Mant bits * 1000000) := by
+  have hfin : bits / 2 ^ 52 % 2048 ≠ 2047 := by
+    simp only [exact6, Bool.and_eq_true, decide_eq_true_eq] at h
+    exact h.1
+  exact ⟨fmtF64_reads_back bits hfin, exact6_value bits h⟩
+
+/-- 2.5 and -0.015625 (= -1/64) print exactly, 0.1 does not (0.100000 ≠ 0.1000000000000000055…) -/
+example : exact6 0x4004000000000000 = true ∧ exact6 0xBF90000000000000 = true ∧
+    exact6 0x3FB999999999999A = false := by decide
+
+example : readSigned6 (fmtF64 0xBF90000000000000) = some (true, 15625) := by decide
+
+/-! ### format selection: manipulator -> iword slot -> operator<< -> language(format) -/
+
+/-- the four language manipulators and the column of the template table each must select -/
+def langManips : List (String × Fmt) :=
+  [("c_language", .c), ("cpp_language", .cpp), ("mql_language", .mql), ("python_language", .py)]
+
+/-- `language_selection_persists` (over the EXTRACTED enumerators, manipulator bodies and switch):
+    for every history of a stream – any operations `pre`, then `s << out::X_language`, then any
+    operations `mid` that neither replace the stream nor write the format slot (prints, long/short
+    form, …) – the next `s << individual` takes the default branch of the switch and calls
+    `language(s, symbol::format(k), ind)` with `k` = the column of format X. -/
+theorem language_selection_persists (pre mid : List Op) (s : StreamSt) (name : String) (f : Fmt) (arg : Nat)
+    (hm : (name, f) ∈ langManips)
+    (hq : ∀ o ∈ mid, quiet Gen.manipulators Gen.formatSlot o = true) :
+    shown Gen.dispatchCases Gen.dispatchBase
+      ((stAfter Gen.manipulators s (pre ++ .manip name arg :: mid)).get Gen.formatSlot) = .lang f.idx := by
+  rw [stAfter_append, stAfter_cons, quiet_keeps _ _ mid _ hq]
+  generalize stAfter Gen.manipulators s pre = s'
+  simp only [langManips, List.mem_cons, Prod.mk.injEq, List.not_mem_nil, or_false] at hm
+  rcases hm with ⟨rfl, rfl⟩ | ⟨rfl, rfl⟩ | ⟨rfl, rfl⟩ | ⟨rfl, rfl⟩
+  all_goals
+    simp only [stStep, applyManip, Gen.manipulators, List.find?, Gen.formatSlot, Option.getD]
+    first
+      | (rw [StreamSt.get_set_same]; decide)
+      | (simp only [String.reduceBEq, StreamSt.get_set_same]; decide)
+
+/-- `print_format_selects`: `out::print_format(language_f + k)` stores its argument in the format
+    slot, and a flag `language_f + k` reaches `language(s, symbol::format(k), ind)` – no case
+    label of the switch is ≥ language_f. -/
+theorem print_format_selects (pre mid : List Op) (s : StreamSt) (k : Nat)
+    (hq : ∀ o ∈ mid, quiet Gen.manipulators Gen.formatSlot o = true) :
+    shown Gen.dispatchCases Gen.dispatchBase
+      ((stAfter Gen.manipulators s (pre ++ .manip "print_format" (Gen.dispatchBase + k) :: mid)).get
+        Gen.formatSlot) = .lang k := by
+  rw [stAfter_append, stAfter_cons, quiet_keeps _ _ mid _ hq]
+  generalize stAfter Gen.manipulators s pre = s'
+  have h1 : (stStep Gen.manipulators s' (.manip "print_format" (Gen.dispatchBase + k))).get Gen.formatSlot =
+      Gen.dispatchBase + k := by
+    simp only [stStep, applyManip, Gen.manipulators, List.find?, Gen.formatSlot, Option.getD]
+    first
+      | exact StreamSt.get_set_same _ _ _
+      | (simp only [String.reduceBEq]; exact StreamSt.get_set_same _ _ _)
+  rw [h1, shown_default _ _ _ (by decide) (by omega)]
+  congr 1; omega
+
+/-- a stream nobody configured prints the `list` format, never a language -/
+theorem fresh_stream_is_not_language :
+    shown Gen.dispatchCases Gen.dispatchBase (StreamSt.fresh.get Gen.formatSlot) = .fn "list" := by decide
+
+/-- `team_language_format`: in every language format (flag ≥ language_f) a team is printed as
+    every member's text followed by a newline (`teamG`, whose lines are the members' texts by
+    `team_export_lines`). -/
+theorem team_language_format (pf : Nat) (h : Gen.dispatchBase ≤ pf) (ms : List (List Ch)) :
+    teamExec Gen.teamBody pf ms = teamG ms := by
+  have hb : elseBody Gen.teamBody = [.member, .put 10] := by decide
+  simp only [teamExec, teamG]
+  congr 1
+  funext m
+  rw [exec_elseBody Gen.dispatchBase pf m h Gen.teamBody (by decide), hb]
+  simp [execPrim]
+
 /-! ### the hypotheses are satisfiable: a concrete non-trivial program -/
 
 /-- index of the function named `name` in the extracted table -/
@@ -189,5 +353,133 @@ example : ∀ f ∈ Fmt.all,
     parse f (lexS f (language Gen.functions Gen.terminals f sampleTree)) =
       some (stripAst (astT Gen.functions Gen.terminals f sampleTree)) := by
   decide
+
+/-! ### genome-level examples -/
+
+/-- index of the first terminal class whose C display is `p` -/
+def tmIdxQ : Nat := tmIdx [.quote]
+
+/-- FADD(FLENGTH("hello"), 3.0), categories 0 = reals, 1 = strings, packed: `3.0` at [2,0] and
+    `"hello"` at [2,1] are two ACTIVE genes of the same row; [0,1] and [1,1] are inactive -/
+def demoPacked : List (List Gene) :=
+  [[.fn (fnIdx [70, 65, 68, 68]) [0, 0] [1, 2], .tm tmIdxQ [120] 0],
+   [.fn (fnIdx [70, 76, 69, 78, 71, 84, 72]) [1] [2], .tm tmIdxQ [121] 0],
+   [.tm (tmIdx [.toStrD]) [] 0x4008000000000000, .tm tmIdxQ [104, 101, 108, 108, 111] 0]]
+
+/-- the same program, one active gene per row, other inactive genes -/
+def demoChain : List (List Gene) :=
+  [[.fn (fnIdx [70, 65, 68, 68]) [0, 0] [1, 3], .tm tmIdxQ [] 0],
+   [.fn (fnIdx [70, 76, 69, 78, 71, 84, 72]) [1] [2], .tm tmIdxQ [122] 0],
+   [.tm (tmIdx [.toStrD]) [] 0x4000000000000000, .tm tmIdxQ [104, 101, 108, 108, 111] 0],
+   [.tm (tmIdx [.toStrD]) [] 0x4008000000000000, .tm tmIdxQ [97] 0],
+   [.tm (tmIdx [.toStrD]) [] 0, .tm tmIdxQ [98] 0]]
+
+example : wfRows Gen.functions demoPacked = true ∧ wfRows Gen.functions demoChain = true := by decide
+
+/-- both same-row genes of `demoPacked` are active -/
+example : Active Gen.functions (Genome.ofRows demoPacked) ⟨0, 0⟩ ⟨2, 0⟩ ∧
+    Active Gen.functions (Genome.ofRows demoPacked) ⟨0, 0⟩ ⟨2, 1⟩ := by
+  have h0 : Genome.ofRows demoPacked ⟨0, 0⟩ = .fn (fnIdx [70, 65, 68, 68]) [0, 0] [1, 2] := rfl
+  have h1 : Genome.ofRows demoPacked ⟨1, 0⟩ = .fn (fnIdx [70, 76, 69, 78, 71, 84, 72]) [1] [2] := rfl
+  obtain ⟨sa, hsa, haa⟩ : ∃ sym, Gen.functions[fnIdx [70, 65, 68, 68]]? = some sym ∧ sym.arity = 2 := by
+    refine ⟨_, rfl, ?_⟩; decide
+  obtain ⟨sl, hsl, hal⟩ : ∃ sym, Gen.functions[fnIdx [70, 76, 69, 78, 71, 84, 72]]? = some sym ∧ sym.arity = 1 := by
+    refine ⟨_, rfl, ?_⟩; decide
+  have a1 : Active Gen.functions (Genome.ofRows demoPacked) ⟨0, 0⟩ ⟨1, 0⟩ :=
+    Active.arg (i := 0) (Active.root _) h0 hsa (by omega)
+  exact ⟨Active.arg (i := 1) (Active.root _) h0 hsa (by omega),
+         Active.arg (i := 0) a1 h1 hsl (by omega)⟩
+
+set_option maxRecDepth 100000 in
+/-- the two layouts unfold the same program (hypothesis of `export_layout_independent`), which
+    is within the hypotheses of `export_genome_denotes` in all four formats -/
+example : unfoldG Gen.functions (Genome.ofRows demoPacked) 3 ⟨0, 0⟩ =
+    unfoldG Gen.functions (Genome.ofRows demoChain) 5 ⟨0, 0⟩ := by rfl
+
+set_option maxRecDepth 100000 in
+example : ∀ f ∈ Fmt.all,
+    wfT Gen.functions (unfoldG Gen.functions (Genome.ofRows demoPacked) 3 ⟨0, 0⟩) = true ∧
+    termsT (termOk f (firstList Gen.functions Gen.terminals f)) Gen.terminals f
+      (unfoldG Gen.functions (Genome.ofRows demoPacked) 3 ⟨0, 0⟩) = true ∧
+    termsT (rendOk f (firstList Gen.functions Gen.terminals f)) Gen.terminals f
+      (unfoldG Gen.functions (Genome.ofRows demoPacked) 3 ⟨0, 0⟩) = true := by
+  decide
+
+set_option maxRecDepth 100000 in
+/-- the two genes of row 2 print different texts: a rendering cached per ROW cannot be right -/
+example : langG Gen.functions Gen.terminals .c (Genome.ofRows demoPacked) 1 ⟨2, 0⟩ ≠
+    langG Gen.functions Gen.terminals .c (Genome.ofRows demoPacked) 1 ⟨2, 1⟩ := by decide
+
+/-- the stripping rule by itself is NOT sound: `(a)+(b)` would become `a)+(b`.  It is sound for
+    vita's programs because of `Safe` (`stripOk`): a template that can start with `(` and end with
+    `)` must be one parenthesised expression – `%%1%%+%%2%%` is rejected. -/
+example : stripOuter [40, 97, 41, 43, 40, 98, 41] = [97, 41, 43, 40, 98] := by decide
+
+set_option maxRecDepth 100000 in
+example : safeTpl .c { key := "x", name := [], arity := 2,
+                       tpl := [[37, 37, 49, 37, 37, 43, 37, 37, 50, 37, 37]] } = false := by decide
+
+/-- a team of two members, no newline in a member's text -/
+example : splitLines (teamG [[97, 43, 98], [99]]) = [[97, 43, 98], [99]] := by decide
+
+/-- `demoPacked` with other genes at the two INACTIVE loci [0,1] and [1,1] -/
+def demoPacked2 : List (List Gene) :=
+  [[.fn (fnIdx [70, 65, 68, 68]) [0, 0] [1, 2], .tm tmIdxQ [113, 113] 0],
+   [.fn (fnIdx [70, 76, 69, 78, 71, 84, 72]) [1] [2], .fn (fnIdx [70, 65, 68, 68]) [0, 0] [2, 2]],
+   [.tm (tmIdx [.toStrD]) [] 0x4008000000000000, .tm tmIdxQ [104, 101, 108, 108, 111] 0]]
+
+/-- hypothesis of `export_ignores_inactive`: the two genomes differ (at [0,1] and [1,1]) but hold
+    the same gene at every locus active from [0,0] (these are [0,0], [1,0], [2,0], [2,1]) -/
+example : (∀ m, Active Gen.functions (Genome.ofRows demoPacked) ⟨0, 0⟩ m →
+      Genome.ofRows demoPacked m = Genome.ofRows demoPacked2 m) ∧
+    Genome.ofRows demoPacked ⟨1, 1⟩ ≠ Genome.ofRows demoPacked2 ⟨1, 1⟩ := by
+  have ha : (Gen.functions[fnIdx [70, 65, 68, 68]]?).map (·.arity) = some 2 := by decide
+  have hl : (Gen.functions[fnIdx [70, 76, 69, 78, 71, 84, 72]]?).map (·.arity) = some 1 := by decide
+  have key : ∀ m, Active Gen.functions (Genome.ofRows demoPacked) ⟨0, 0⟩ m →
+      m = ⟨0, 0⟩ ∨ m = ⟨1, 0⟩ ∨ m = ⟨2, 0⟩ ∨ m = ⟨2, 1⟩ := by
+    intro m h
+    induction h with
+    | root => exact Or.inl rfl
+    | @arg m' s acat args sym i _ hg hs hi ih =>
+      rcases ih with rfl | rfl | rfl | rfl
+      · have e : Genome.ofRows demoPacked ⟨0, 0⟩ = .fn (fnIdx [70, 65, 68, 68]) [0, 0] [1, 2] := rfl
+        rw [e] at hg
+        injection hg with h1 h2 h3
+        subst h1 h2 h3
+        rw [hs] at ha
+        simp only [Option.map_some, Option.some.injEq] at ha
+        have : i = 0 ∨ i = 1 := by omega
+        rcases this with rfl | rfl
+        · exact Or.inr (Or.inl rfl)
+        · exact Or.inr (Or.inr (Or.inl rfl))
+      · have e : Genome.ofRows demoPacked ⟨1, 0⟩ = .fn (fnIdx [70, 76, 69, 78, 71, 84, 72]) [1] [2] := rfl
+        rw [e] at hg
+        injection hg with h1 h2 h3
+        subst h1 h2 h3
+        rw [hs] at hl
+        simp only [Option.map_some, Option.some.injEq] at hl
+        have : i = 0 := by omega
+        subst this
+        exact Or.inr (Or.inr (Or.inr rfl))
+      · have e : Genome.ofRows demoPacked ⟨2, 0⟩ = .tm (tmIdx [.toStrD]) [] 0x4008000000000000 := rfl
+        rw [e] at hg; cases hg
+      · have e : Genome.ofRows demoPacked ⟨2, 1⟩ = .tm tmIdxQ [104, 101, 108, 108, 111] 0 := rfl
+        rw [e] at hg; cases hg
+  refine ⟨fun m h => ?_, by decide⟩
+  rcases key m h with rfl | rfl | rfl | rfl <;> rfl
+
+/-- hypothesis of `unfold_fuel_irrelevant` -/
+example : WfG Gen.functions (Genome.ofRows demoPacked) 3 :=
+  wfRows_sound Gen.functions demoPacked (by decide)
+
+/-- hypotheses of `language_selection_persists` / `print_format_selects`: a print, `long_form` and
+    `short_form` leave the format slot alone; `python_language` does not -/
+example : (∀ o ∈ [Op.print, .manip "long_form" 0, .print, .manip "short_form" 0],
+      quiet Gen.manipulators Gen.formatSlot o = true) ∧
+    quiet Gen.manipulators Gen.formatSlot (.manip "python_language" 0) = false ∧
+    ("python_language", Fmt.py) ∈ langManips := by decide
+
+/-- hypothesis of `to_string_double_reads_back`: 2.5 is finite -/
+example : 0x4004000000000000 / 2 ^ 52 % 2048 ≠ 2047 := by decide
 
 end Vita.C19
